@@ -274,6 +274,8 @@ func kebab(key string) string {
 
 type decl struct{ prop, val string }
 
+const malformed = "\x00malformed"
+
 // parseDecls reads a declaration list `a: b; c: d` (harmless values only in this package).
 func parseDecls(s string) []decl {
 	var out []decl
@@ -284,7 +286,7 @@ func parseDecls(s string) []decl {
 		}
 		i := strings.Index(part, ":")
 		if i < 0 {
-			out = append(out, decl{part, "\x00malformed"})
+			out = append(out, decl{part, malformed})
 			continue
 		}
 		out = append(out, decl{strings.TrimSpace(part[:i]), strings.TrimSpace(part[i+1:])})
@@ -418,7 +420,13 @@ func (c Case) model(k int) *expect {
 				case !spec:
 					e.styleFree = true
 				case truthy && v.K == "string":
-					for _, d := range parseDecls(s) {
+					ds := parseDecls(s)
+					for _, d := range ds {
+						if d.val == malformed {
+							e.styleFree = true // not a declaration list: what it contributes is not specified
+						}
+					}
+					for _, d := range ds {
 						e.style[d.prop] = d.val
 					}
 				case truthy:
@@ -453,6 +461,9 @@ func (c Case) model(k int) *expect {
 					e.styleAny = true
 					pr := kebab(p.Key)
 					switch {
+					case v.K == "string" && strings.ContainsAny(v.S, ";:'\""):
+						// CSS syntax inside a value (declaration injection) is not this property's subject
+						e.styleFree = true
 					case v.K == "string" && v.S != "" && v.S == strings.TrimSpace(v.S), isNumeric(v.K):
 						s, _ := strForm(v)
 						e.style[pr] = s // "Values are applied as-is"
@@ -598,7 +609,11 @@ func check(c Case) error {
 	}
 	els := hx.Find(forest, func(n *hx.N) bool { return n.Attrs["data-m"] == "1" })
 	raw := markedStartTags(out)
-	if len(els) != want || len(raw) != want {
+	atLeast := want
+	if c.dir("v-once") && want > 1 {
+		atLeast = 1 // v-once inside a loop renders the element once (docs); how often exactly is C16's subject
+	}
+	if len(els) > want || len(els) < atLeast || len(raw) != len(els) {
 		return fail("expected %d marked element(s), found %d (tokenizer: %d)", want, len(els), len(raw))
 	}
 	for k := range els {
